@@ -82,6 +82,26 @@ fn serve(args: &[String]) {
 
 /// Control commands added by later hooks (structure checkers etc.).
 pub fn ctl_ext(p: &[&str]) -> String {
-    let _ = p;
-    "ERR unknown".into()
+    match p[0] {
+        // ZCHECK <db> <hex key>: structural invariants of the skip list behind a sorted set
+        "ZCHECK" => {
+            let db: usize = p[1].parse().unwrap_or(0);
+            let key = jsonx::unhex(p.get(2).copied().unwrap_or(""));
+            let reg = match ferrous::verif::registry() {
+                Some(r) => r,
+                None => return "ERR no registry".into(),
+            };
+            match reg.storage.get(db, &key) {
+                Ok(ferrous::storage::GetResult::Found(ferrous::storage::Value::SortedSet(z))) => {
+                    match z.verif_check_invariants() {
+                        Ok(()) => "OK".into(),
+                        Err(e) => format!("BAD {}", e.replace('\n', " ")),
+                    }
+                }
+                Ok(_) => "NONE".into(),
+                Err(e) => format!("ERR {}", e),
+            }
+        }
+        _ => "ERR unknown".into(),
+    }
 }
